@@ -139,6 +139,18 @@ CLAIMS = {
               "registry cleared or not; row sets compared with each other, with the P-model and with the brute-force specification."),
         design='7/C13', technique='Coq proof over translator-extracted index arithmetic + instances of the C02 evaluator theorems + differential correspondence predicate form vs explicit form',
         note=BASE_NOTE + " A nested term used as a field value is read as the conjunction of its own equalities (C15's reading of a quantifier used as an operand); that the evaluator treats an An(...) operand so is covered by the correspondence, not by a theorem. Row ORDER of predicate-form queries is not claimed (sets)."),
+    'C14': dict(
+        text=("Machine-checked for EVERY class forest and EVERY finite history (any length) interleaving concrete construction of any class, "
+              "symbolic construction, rule inference of any number of instances, registry clearing and no-domain queries: C14_registry / "
+              "C14_query_after (every query of T returns, each exactly once, the concrete constructions of T and of its subclasses since "
+              "the last clearing - proved by an invariant relating a line-by-line model of Variable._cache_ / flat_cache / "
+              "get_cache_keys_for_class_ to a plain construction log, induction over the history), C14_symbolic_inert (symbolic "
+              "construction changes neither registry nor initialisation count), C14_inferred_are_registered. Tie: generated histories over "
+              "fresh class forests (dataclass / hand-written __init__, decorated and undecorated subclasses up to 4 levels, every "
+              "construction style) - every query result compared BY IDENTITY and in order with the registry model and as a multiset with "
+              "the harness's own log, the initialisation counter compared after every step."),
+        design='7/C14', technique='Coq proof (refinement of the registry model to a construction log, invariant by induction over histories) + step-wise correspondence by object identity',
+        note=BASE_NOTE + " Queries are declared and evaluated at the same point of the history (a no-domain variable declared earlier fixes its set of class keys at declaration when the registry is non-empty; that laziness is outside the property's histories). Constructions whose __init__ raises and inference into a class while iterating that class's own registry are outside the modelled histories (see DESIGN.md)."),
 }
 
 NOT_YET = {}
